@@ -79,6 +79,9 @@ func ParseWriteSingleRegisterRequestTCP(data []byte) (*WriteSingleRegisterReques
 	if err != nil {
 		return nil, err
 	}
+	if tooShort := checkTCPRequestLength(header, data, FunctionWriteSingleRegister, 12); tooShort != nil {
+		return nil, tooShort
+	}
 	unitID := data[6]
 	if data[7] != FunctionWriteSingleRegister {
 		tmpErr := NewErrorParseTCP(ErrIllegalFunction, "received function code in packet is not 0x06")
